@@ -177,8 +177,11 @@ JudgeParse(e, pre) ==
   ELSE LET others == {f \in AllFields \ {"exec"} : e.post[f] # pre[f]}
            r == Parse(e.act.text, pre.exec, KnownInstr, WS)
        IN IF others # {} THEN Verdict("mismatch", "parse", "C03", SetAsSeq(others), "the parser changed a stack other than EXEC")
-          ELSE IF r.balanced /\ ~SeqMatch(r.exec, e.post.exec)
+          ELSE IF r.balanced /\ r.depth = 0 /\ ~SeqMatch(r.exec, e.post.exec)
           THEN Verdict("mismatch", "parse", "C03", <<"exec">>, "EXEC differs from the token tree")
+          \* lists still open at the end of the text are closed there; C03 speaks of balanced programs only: extended coverage
+          ELSE IF r.balanced /\ r.depth > 0 /\ ~SeqMatch(r.exec, e.post.exec)
+          THEN Verdict("mismatch", "parse", "EXT", <<"exec">>, "EXEC differs from the token tree with the open lists closed at the end of the text")
           ELSE Blank("ok", "parse")
 
 \* same structure and atoms, float values ignored
